@@ -1,7 +1,7 @@
 (* C29 proofs.  The domain of the decision function is finite (96 points); the table is checked on the whole
    domain by computation ([forallb ... = true], vm_compute) and lifted with [forallb_forall] and the
    completeness of [domain]. *)
-From Coq Require Import List NArith ZArith Bool Lia.
+From Coq Require Import List NArith ZArith Bool Lia Arith.
 From RV Require Import C29.Model C29.Spec.
 Import ListNotations.
 
@@ -10,17 +10,39 @@ Proof. reflexivity. Qed.
 
 Lemma domain_complete : forall x : point, In x domain.
 Proof.
-  intros [pol a b c o].
-  destruct pol, a, b, c, o; vm_compute; tauto.
+  intros [pol a b c o]. unfold domain.
+  assert (Hb : forall v : bool, In v all_bools) by (destruct v; cbn; tauto).
+  apply in_flat_map. exists pol. split; [destruct pol; cbn; tauto|].
+  apply in_flat_map. exists o. split; [destruct o; cbn; tauto|].
+  apply in_flat_map. exists a. split; [apply Hb|].
+  apply in_flat_map. exists b. split; [apply Hb|].
+  apply in_map_iff. exists c. split; [reflexivity | apply Hb].
+Qed.
+
+(* no point is listed twice: injective code + boolean duplicate check by computation *)
+Definition code (x : point) : nat :=
+  let b (v : bool) := if v then 1 else 0 in
+  (match p_pol x with Never => 0 | Stale => 1 | New => 2 end) * 32
+  + (match p_out x with Unavailable => 0 | OStale => 1 | Current => 2 | Updated => 3 end) * 8
+  + b (p_rrdp x) * 4 + b (p_rsync x) * 2 + b (p_notify x).
+
+Fixpoint nodupb (l : list nat) : bool :=
+  match l with
+  | [] => true
+  | x :: t => negb (existsb (Nat.eqb x) t) && nodupb t
+  end.
+
+Lemma nodupb_sound : forall l, nodupb l = true -> NoDup l.
+Proof.
+  induction l as [| x t IH]; cbn; intro H; [constructor|].
+  apply andb_true_iff in H. destruct H as [H1 H2]. constructor; auto.
+  intro Hin. apply negb_true_iff in H1.
+  assert (existsb (Nat.eqb x) t = true) by (apply existsb_exists; exists x; split; auto; apply Nat.eqb_refl).
+  congruence.
 Qed.
 
 Lemma domain_nodup : NoDup domain.
-Proof.
-  assert (D : forall x y : point, {x = y} + {x <> y}) by (repeat decide equality).
-  apply (NoDup_count_occ' D). intros x Hx.
-  destruct x as [pol a b c o]; destruct pol, a, b, c, o; vm_compute;
-    repeat match goal with |- context [D ?x ?y] => destruct (D x y); try congruence end; reflexivity.
-Qed.
+Proof. apply (NoDup_map_inv code). apply nodupb_sound. vm_compute. reflexivity. Qed.
 
 Definition agree (x : point) : bool :=
   transport_eqb (repository (p_pol x) (p_rrdp x) (p_rsync x) (p_notify x) (p_out x))
